@@ -20,6 +20,7 @@ func init() {
 			"(R3) transmitBlock is only called with a pending count tested > 0; (R4, coalescing) a matched block extends the pending run only when its index equals start+count exactly, otherwise the run is flushed and restarted at (index, 1); " +
 			"(R5) the literal-only fast path is taken exactly when the base signature has no hashes; (R6) a block operation is emitted only for an index whose strong hash was compared equal with bytes.Equal against the signature's hash at that index; " +
 			"(R7, Patch) a data operation writes exactly operation.Data; a block operation seeks to Start·BlockSize and copies Count blocks, using LastBlockSize exactly for the signature's last index and BlockSize otherwise, each read with ReadFull. " +
+			"(R8, every base block can be found) the weak-hash lookup table is a multimap: each full-size block's index is appended, unconditionally, to the candidates of its weak hash, and the search compares the strong hash inside a loop over those candidates — 32-bit weak hashes collide, and a table that keeps one block per weak hash sends colliding unchanged blocks as literals; " +
 			"Not decided: Apply(base, Delta(base,target)) = target; absence of literals for unchanged targets beyond R5.",
 		Assumptions: []string{"strong-hash equality means block equality (collision resistance)"},
 		Run:         runC19,
